@@ -298,6 +298,24 @@ def _bind_events(mapping):
 _mono_counter = [0]
 
 
+def _mono_line(events, instrument):
+    """[(onset, Ev)] of a Pmono line, end time, voice id (None: no synth was
+    created) and flags.  PmonoStream: the synth is created by the first event
+    that is played; rests before it send nothing and create nothing."""
+    _mono_counter[0] += 1
+    mid = _mono_counter[0]
+    t, items, created, flags = 0.0, [], False, set()
+    for keys in events:
+        e = Ev(keys, 'mono_set' if created else 'mono_on', (mid, instrument))
+        if not created and e.rest:
+            flags.add('pmono-leading-rest')
+        elif not created:
+            created = True
+        items.append((t, e))
+        t += e.delta
+    return items, t, (mid if created else None), flags
+
+
 def timeline(p):
     kind = p[0]
     if kind == 'pbind':
@@ -313,21 +331,9 @@ def timeline(p):
             t += e.delta
         return Timeline(items, t)
     if kind == 'pmono':
-        _mono_counter[0] += 1
-        mid = _mono_counter[0]
-        t, items, created, flags = 0.0, [], False, set()
-        for i, keys in enumerate(_bind_events(p[2])):
-            keys = dict(keys)
-            # PmonoStream: the synth is created by the first event that is
-            # played; rests before it send nothing and create nothing
-            e = Ev(keys, 'mono_set' if created else 'mono_on', (mid, p[1]))
-            if not created and e.rest:
-                flags.add('pmono-leading-rest')
-            elif not created:
-                created = True
-            items.append((t, e))
-            t += e.delta
-        return Timeline(items, t, [(t, mid, True)] if created else [],
+        items, t, voice, flags = _mono_line(
+            [dict(k) for k in _bind_events(p[2])], p[1])
+        return Timeline(items, t, [(t, voice, True)] if voice else [],
                         flags=flags)
     if kind == 'pmono_artic':
         # PmonoArtic help (the port: "support for PmonoArtic integrated through
@@ -405,6 +411,26 @@ def timeline(p):
             total = max(total, tl.total)
         items.sort(key=lambda x: x[0])
         return Timeline(items, total, rel, False, flags)
+    if kind == 'pchain' and p[1][0] == 'pmono':
+        # Pchain(Pmono, right): the mono line takes the events of the right
+        # operand as input, its own keys override them; it stays a mono line
+        a, b = p[1], p[2]
+        tb = timeline(b)
+        if not tb.sequential:
+            raise ValueError('Pchain(Pmono, parallel stream) is not modelled')
+        mine = _bind_events(a[2])
+        n = min(len(mine), len(tb.items))
+        merged = []
+        for i in range(n):
+            keys = dict(tb.items[i][1].keys)
+            keys.pop('instrument', None)
+            keys.update(mine[i])
+            merged.append(keys)
+        items, t, voice, flags = _mono_line(merged, a[1])
+        # the mono stream ends by itself (release at once) only when it is the
+        # shorter operand; otherwise the player's clean-up releases the node
+        rel = [(t, voice, len(mine) < len(tb.items))] if voice else []
+        return Timeline(items, t, rel, True, flags | tb.flags)
     if kind == 'pchain':
         a, b = p[1], p[2]
         tb = timeline(b)
@@ -429,7 +455,14 @@ def timeline(p):
                     ne = Ev(keys, e.kind, e.mono)
                 items.append((t, ne))
                 t += ne.delta
-            return Timeline(items, t, tb.releases, True, tb.flags)
+            rel = tb.releases
+            if b[0] == 'pmono':
+                # the chained line is still a mono line (event types are kept);
+                # its end-of-stream release happens where the chain ends: at
+                # once when the Pmono is exhausted first, else by the player
+                exact = not finite or len(tb.items) <= min(finite)
+                rel = [(t, m, exact) for _, m, _x in tb.releases]
+            return Timeline(items, t, rel, True, tb.flags)
         for t0, e in tb.items:
             keys = dict(e.keys)
             keys.update(a[1])
